@@ -338,16 +338,13 @@ func ruleC17Busy(cx *Ctx) {
 		name := funcName(fn)
 		var regions []*ssa.Call
 		allInstrs(fn, func(in ssa.Instruction) {
-			if c, ok := in.(*ssa.Call); ok && atomicOp(c, busy, "CompareAndSwap") {
+			if c, ok := in.(*ssa.Call); ok && (atomicOp(c, busy, "CompareAndSwap") || flagTry(c, busy)) {
 				regions = append(regions, c)
 			}
 		})
-		isRelease := func(in ssa.Instruction) bool { return isStoreConst(in, busy, 0) }
+		isRelease := func(in ssa.Instruction) bool { return flagRelease(in, busy) }
 		for ri, c := range regions {
-			a := callArgs(c)
-			x, ok1 := constInt(a[0])
-			y, ok2 := constInt(a[1])
-			cx.R.Check(ok1 && ok2 && x == 0 && y == 1, rule, name, fmt.Sprintf("acquire#%d", ri+1), cx.P.where(c), "the busy flag is taken with CAS(0,1)")
+			cx.R.Check(flagTry(c, busy), rule, name, fmt.Sprintf("acquire#%d", ri+1), cx.P.where(c), "the busy flag is taken with CAS(0,1)")
 			for _, i := range ifsOn(c) {
 				succ := i.If.Block().Succs[i.TrueIdx]
 				ok, w := MustFollowPt(Pt{succ, 0}, isRelease, exitReturn|exitPanic, nil)
@@ -374,7 +371,7 @@ func ruleC17Busy(cx *Ctx) {
 			nw++
 			// a slot of a table allocated in this function and not yet published is private
 			if isSlotStore {
-				if _, fresh := slotBase.(*ssa.Alloc); fresh {
+				if fresh := freshObject(slotBase); fresh {
 					published := false
 					for _, u := range usesOf(slotBase) {
 						if isStdMethod(u, "sync/atomic", "Pointer", "Store") && sameField(recvField(u), striped) && instrDominates(u, in) {
@@ -440,7 +437,7 @@ func ruleC17Copy(cx *Ctx) {
 				return
 			}
 			copies++
-			_, fresh := nb.(*ssa.Alloc)
+			fresh := freshObject(nb)
 			cx.R.Check(fresh && nb != ob && ni == oi, rule, name, "copy index", cx.P.where(in), "new.buffers[j] = old.buffers[j] with the same j, into a freshly allocated table")
 			boundOK := false
 			var header *ssa.BasicBlock
@@ -484,6 +481,29 @@ func ruleC17Copy(cx *Ctx) {
 							}
 						}
 					}
+				}
+			}
+			// the table built by a constructor: its len field is stored there from a parameter; take the argument
+			if call, isCall := nb.(*ssa.Call); isCall && !dbl {
+				if ctor := calleeOf(call); ctor != nil {
+					allInstrs(ctor, func(x ssa.Instruction) {
+						st, ok := x.(*ssa.Store)
+						if !ok || !sameField(fieldOf(st.Addr), lenF) {
+							return
+						}
+						for pi, p := range ctor.Params {
+							if ssa.Value(p) == st.Val && pi < len(call.Call.Args) {
+								t := newTermBuilder().of(call.Call.Args[pi])
+								if t.Op == "*" && len(t.Args) == 2 {
+									for i := 0; i < 2; i++ {
+										if t.Args[i].isConst() && t.Args[i].C == 2 && strings.HasPrefix(t.Args[1-i].String(), "field:len(") {
+											dbl = true
+										}
+									}
+								}
+							}
+						}
+					})
 				}
 			}
 			cx.R.Check(dbl, rule, name, "doubling", cx.P.where(in), "the new table has twice the old length (power of two keeps idx & (len-1) valid)")
@@ -802,7 +822,7 @@ func ruleC17Current(cx *Ctx) {
 				if fa == nil {
 					return
 				}
-				if _, fresh := fa.X.(*ssa.Alloc); fresh {
+				if fresh := freshObject(fa.X); fresh {
 					return // table under construction (C17.copy / C17.busy)
 				}
 				n++
@@ -814,7 +834,7 @@ func ruleC17Current(cx *Ctx) {
 			if sameField(recvField(in), stripedF) {
 				n++
 				a := callArgs(in)
-				_, fresh := a[0].(*ssa.Alloc)
+				fresh := freshObject(a[0])
 				// the tables the new one was derived from: every table value read in this function that is not the new one
 				okAny, whyAny := false, "no table value re-validated under the flag justifies the replacement"
 				seen := map[ssa.Value]bool{}
@@ -851,4 +871,35 @@ func ruleC17Current(cx *Ctx) {
 			}
 		})
 	}
+}
+
+// freshObject: v is an object allocated right here: a composite literal / new in this function, or the result of a
+// constructor of the module whose every return value is such an allocation (newStripedTable(length)).
+func freshObject(v ssa.Value) bool {
+	switch x := v.(type) {
+	case *ssa.Alloc:
+		return true
+	case *ssa.Call:
+		c := x.Call.StaticCallee()
+		if c == nil || x.Call.IsInvoke() {
+			return false
+		}
+		o := origin(c)
+		if o == nil || o.Pkg == nil || !strings.HasPrefix(o.Pkg.Pkg.Path(), modPath) {
+			return false
+		}
+		ok, n := true, 0
+		allInstrs(o, func(in ssa.Instruction) {
+			if r, isRet := in.(*ssa.Return); isRet {
+				n++
+				if len(r.Results) != 1 {
+					ok = false
+				} else if _, isAlloc := r.Results[0].(*ssa.Alloc); !isAlloc {
+					ok = false
+				}
+			}
+		})
+		return ok && n > 0
+	}
+	return false
 }
